@@ -281,5 +281,110 @@ theorem shape_Conn_postConnect : Facts.shape_Conn_postConnect = some "9f8d669890
 /-- [C18] `Conn.ping` is the body the model transcribes -/
 theorem shape_Conn_ping : Facts.shape_Conn_ping = some "fb69317c11dce15c" := by decide
 
+/-- [C12,C13,C14] `st.stateTracker.Wipe` is the body the model transcribes -/
+theorem shape_st_stateTracker_Wipe : Facts.shape_st_stateTracker_Wipe = some "64ea5e0b342d25a2" := by decide
+
+/-- [C12,C13,C14] `st.stateTracker.NewNick` is the body the model transcribes -/
+theorem shape_st_stateTracker_NewNick : Facts.shape_st_stateTracker_NewNick = some "95a58f5e3a1b1023" := by decide
+
+/-- [C12,C13,C14] `st.stateTracker.GetNick` is the body the model transcribes -/
+theorem shape_st_stateTracker_GetNick : Facts.shape_st_stateTracker_GetNick = some "6fbe1e12dd4a6890" := by decide
+
+/-- [C12,C13,C14] `st.stateTracker.ReNick` is the body the model transcribes -/
+theorem shape_st_stateTracker_ReNick : Facts.shape_st_stateTracker_ReNick = some "061a9d1ebc7071f1" := by decide
+
+/-- [C12,C13,C14] `st.stateTracker.DelNick` is the body the model transcribes -/
+theorem shape_st_stateTracker_DelNick : Facts.shape_st_stateTracker_DelNick = some "7b2e67d630ba5295" := by decide
+
+/-- [C12,C13,C14] `st.stateTracker.delNick` is the body the model transcribes -/
+theorem shape_st_stateTracker_delNick : Facts.shape_st_stateTracker_delNick = some "91bacf72e62fd15f" := by decide
+
+/-- [C12,C13,C14] `st.stateTracker.NickInfo` is the body the model transcribes -/
+theorem shape_st_stateTracker_NickInfo : Facts.shape_st_stateTracker_NickInfo = some "f803083d6380a605" := by decide
+
+/-- [C12,C13,C14] `st.stateTracker.NickModes` is the body the model transcribes -/
+theorem shape_st_stateTracker_NickModes : Facts.shape_st_stateTracker_NickModes = some "224f2098afdffb91" := by decide
+
+/-- [C12,C13,C14] `st.stateTracker.NewChannel` is the body the model transcribes -/
+theorem shape_st_stateTracker_NewChannel : Facts.shape_st_stateTracker_NewChannel = some "a053d337704f3ed8" := by decide
+
+/-- [C12,C13,C14] `st.stateTracker.GetChannel` is the body the model transcribes -/
+theorem shape_st_stateTracker_GetChannel : Facts.shape_st_stateTracker_GetChannel = some "f43ccfb47acc8843" := by decide
+
+/-- [C12,C13,C14] `st.stateTracker.DelChannel` is the body the model transcribes -/
+theorem shape_st_stateTracker_DelChannel : Facts.shape_st_stateTracker_DelChannel = some "3d053e5fb51b256c" := by decide
+
+/-- [C12,C13,C14] `st.stateTracker.delChannel` is the body the model transcribes -/
+theorem shape_st_stateTracker_delChannel : Facts.shape_st_stateTracker_delChannel = some "5c1648070a13d6f9" := by decide
+
+/-- [C12,C13,C14] `st.stateTracker.Topic` is the body the model transcribes -/
+theorem shape_st_stateTracker_Topic : Facts.shape_st_stateTracker_Topic = some "9e87b6135814fc11" := by decide
+
+/-- [C12,C13,C14] `st.stateTracker.ChannelModes` is the body the model transcribes -/
+theorem shape_st_stateTracker_ChannelModes : Facts.shape_st_stateTracker_ChannelModes = some "5283427d954b8b5a" := by decide
+
+/-- [C12,C13,C14] `st.stateTracker.Me` is the body the model transcribes -/
+theorem shape_st_stateTracker_Me : Facts.shape_st_stateTracker_Me = some "18c4088165de5583" := by decide
+
+/-- [C12,C13,C14] `st.stateTracker.IsOn` is the body the model transcribes -/
+theorem shape_st_stateTracker_IsOn : Facts.shape_st_stateTracker_IsOn = some "a6d8d270ab2d682f" := by decide
+
+/-- [C12,C13,C14] `st.stateTracker.Associate` is the body the model transcribes -/
+theorem shape_st_stateTracker_Associate : Facts.shape_st_stateTracker_Associate = some "de8736a3379e2692" := by decide
+
+/-- [C12,C13,C14] `st.stateTracker.Dissociate` is the body the model transcribes -/
+theorem shape_st_stateTracker_Dissociate : Facts.shape_st_stateTracker_Dissociate = some "991104b4e85551ea" := by decide
+
+/-- [C12,C13,C14] `st.NewTracker` is the body the model transcribes -/
+theorem shape_st_NewTracker : Facts.shape_st_NewTracker = some "db6dc8934491c583" := by decide
+
+/-- [C12,C13,C14] `st.nick.Nick` is the body the model transcribes -/
+theorem shape_st_nick_Nick : Facts.shape_st_nick_Nick = some "7f0da9d87c35f498" := by decide
+
+/-- [C12,C13,C14] `st.nick.isOn` is the body the model transcribes -/
+theorem shape_st_nick_isOn : Facts.shape_st_nick_isOn = some "6b6c2592ccdb2bda" := by decide
+
+/-- [C12,C13,C14] `st.nick.addChannel` is the body the model transcribes -/
+theorem shape_st_nick_addChannel : Facts.shape_st_nick_addChannel = some "145e8d4e10529424" := by decide
+
+/-- [C12,C13,C14] `st.nick.delChannel` is the body the model transcribes -/
+theorem shape_st_nick_delChannel : Facts.shape_st_nick_delChannel = some "ceb2035eaf4e104a" := by decide
+
+/-- [C12,C13,C14] `st.nick.parseModes` is the body the model transcribes -/
+theorem shape_st_nick_parseModes : Facts.shape_st_nick_parseModes = some "71d4595b563e8e3d" := by decide
+
+/-- [C12,C13,C14] `st.channel.Channel` is the body the model transcribes -/
+theorem shape_st_channel_Channel : Facts.shape_st_channel_Channel = some "6a1d0ab3683cda07" := by decide
+
+/-- [C12,C13,C14] `st.channel.isOn` is the body the model transcribes -/
+theorem shape_st_channel_isOn : Facts.shape_st_channel_isOn = some "dd618f0fec45e54a" := by decide
+
+/-- [C12,C13,C14] `st.channel.addNick` is the body the model transcribes -/
+theorem shape_st_channel_addNick : Facts.shape_st_channel_addNick = some "e6a4bf1a45c6ab0e" := by decide
+
+/-- [C12,C13,C14] `st.channel.delNick` is the body the model transcribes -/
+theorem shape_st_channel_delNick : Facts.shape_st_channel_delNick = some "26492255aa1c7acd" := by decide
+
+/-- [C12,C13,C14] `st.channel.parseModes` is the body the model transcribes -/
+theorem shape_st_channel_parseModes : Facts.shape_st_channel_parseModes = some "185566cd1de87dc3" := by decide
+
+/-- [C12,C13,C14] `st.NickMode.Copy` is the body the model transcribes -/
+theorem shape_st_NickMode_Copy : Facts.shape_st_NickMode_Copy = some "71af84033dcb74d0" := by decide
+
+/-- [C12,C13,C14] `st.ChanMode.Copy` is the body the model transcribes -/
+theorem shape_st_ChanMode_Copy : Facts.shape_st_ChanMode_Copy = some "6494cbd9c1df5f20" := by decide
+
+/-- [C12,C13,C14] `st.ChanPrivs.Copy` is the body the model transcribes -/
+theorem shape_st_ChanPrivs_Copy : Facts.shape_st_ChanPrivs_Copy = some "57cbab7c218b67d0" := by decide
+
+/-- [C12,C13,C14] `st.newNick` is the body the model transcribes -/
+theorem shape_st_newNick : Facts.shape_st_newNick = some "db7033187a769df5" := by decide
+
+/-- [C12,C13,C14] `st.newChannel` is the body the model transcribes -/
+theorem shape_st_newChannel : Facts.shape_st_newChannel = some "362560a59c5095b8" := by decide
+
+/-- [C03,C07,C09] `Conn.send` is the body the model transcribes -/
+theorem shape_Conn_send : Facts.shape_Conn_send = some "4d182839e3592463" := by decide
+
 
 end FactsCheck
